@@ -141,6 +141,24 @@ def replay(recs):
             chk("angle_bisectors/2D", st, {"l": r["l"], "m": r["m"]},
                 {"through": r["o"], "directions": r["dirs"] or "perpendicular pair with equal angles to both lines"},
                 lambda: g.angle_bisectors(l, m), bis_ok)
+            # other representatives of the same two lines: a complex scalar multiple, and the line as the library itself returns
+            # it from a construction (k.perpendicular(q) with k the perpendicular of l in o and q a second point of l)
+            exp_b = {"through": r["o"], "directions": r["dirs"] or "perpendicular pair with equal angles to both lines"}
+            chk("angle_bisectors/2D/complex-multiple", st, {"l": r["l"], "m": r["m"], "l scaled by": "1j"}, exp_b,
+                lambda: g.angle_bisectors(g.Line(np.array(r["l"]) * 1j), m), bis_ok)
+            chk("angle_bisectors/2D/complex-multiple", st, {"l": r["l"], "m": r["m"], "m scaled by": "2-1j"}, exp_b,
+                lambda: g.angle_bisectors(l, g.Line(np.array(r["m"]) * (2 - 1j))), bis_ok)
+            ox, oy, ow = r["o"]
+            if ow != 0:
+                def from_construction(h):
+                    u0, u1 = h[1], -h[0]
+                    k = g.Line(np.array([u0 * ow, u1 * ow, -(u0 * ox + u1 * oy)]))
+                    q = g.Point(np.array([ox + u0 * ow, oy + u1 * ow, ow]))
+                    return k.perpendicular(q)
+                chk("angle_bisectors/2D/line-from-perpendicular()", st, {"l": r["l"], "m": r["m"], "constructed": "l"}, exp_b,
+                    lambda: g.angle_bisectors(from_construction(r["l"]), m), bis_ok)
+                chk("angle_bisectors/2D/line-from-perpendicular()", st, {"l": r["l"], "m": r["m"], "constructed": "m"}, exp_b,
+                    lambda: g.angle_bisectors(l, from_construction(r["m"])), bis_ok)
         elif t == "cocirc":
             pts = [g.Point(*v) for v in r["pts"]]
             chk("is_cocircular", st, {"pts": r["pts"]}, r["b"], lambda: g.is_cocircular(*pts), lambda v: bool(v) == r["b"])
